@@ -1,4 +1,5 @@
 import JSight.Ast
+import JSight.LoaderProofs
 /-!
 # C16 — GetAST mirrors the schema text: the decision logic that is a theorem
 
@@ -75,6 +76,19 @@ theorem C16_rules_order (cs : List CK) (hn : ((cs.filter (· ≠ .typesList)).ma
     (collectRules cs).map (·.1) = (cs.filter (· ≠ .typesList)).map CK.name := by
   have := collect_names_aux cs [] (by simpa using hn)
   simpa [collectRules] using this
+
+/-- loader model (text → node tree, compared with the real `GetAST()` by `loader-diff`): an annotation is bound
+to the node created last, together with the number of nodes created on its line -/
+theorem C16_annotation_binds_last_node (src : Array UInt8) (st : Loader.St) (e : SchemaScan.Ev) (hm : st.mode = .default)
+    (he : e.ty = .inlAnnB ∨ e.ty = .mlAnnB) :
+    ∃ st', Loader.step src st e = .ok st' ∧ st'.rsNode = st.last ∧ st'.rsCount = st.perLine ∧ st'.nodes = st.nodes :=
+  Loader.annotation_binds_last_node src st e hm he
+
+/-- and its rules are accepted only when exactly one node was created on that line (errors 803 / 804) -/
+theorem C16_rule_needs_exactly_one_node (src : Array UInt8) (st : Loader.St) (e : SchemaScan.Ev) (hrs : st.rs = .value) :
+    (st.rsCount = 0 → Loader.ruleLoad src st e = .error (.ruleWithoutExample e.b)) ∧
+    (st.rsCount ≥ 2 → Loader.ruleLoad src st e = .error (.ruleForSeveralNode e.b)) :=
+  Loader.rule_needs_exactly_one_node src st e hrs
 
 /-! Non-vacuity -/
 example : schemaType [.other "min", .type "decimal", .precision] "float" = "decimal" := by decide
